@@ -12,6 +12,8 @@ def run(ctx, rep):
     numeric.r16h(ctx, rep)
     numeric.r16k(ctx, rep)
     numeric.r16m(ctx, rep)
+    numeric.r16q(ctx, rep)
+    numeric.r16r(ctx, rep)
     from . import C10, C11
     sub = type(rep)(rep.prop)
     C10.r10e(ctx, sub)
